@@ -69,9 +69,13 @@ pub enum Tr {
     Unknown,
     ReplaceNoOptions,
     SliceNoTo,
+    /// option values that are not numbers: an unreadable `from` is the start of the string, an unreadable `to` its end
+    SliceBlankTo3,
+    Slice1ToBlank,
+    SliceMinus1To2,
 }
 
-pub const TRS: [Tr; 10] = [
+pub const TRS: [Tr; 13] = [
     Tr::Lowercase,
     Tr::Uppercase,
     Tr::Camelize,
@@ -82,6 +86,9 @@ pub const TRS: [Tr; 10] = [
     Tr::Unknown,
     Tr::ReplaceNoOptions,
     Tr::SliceNoTo,
+    Tr::SliceBlankTo3,
+    Tr::Slice1ToBlank,
+    Tr::SliceMinus1To2,
 ];
 
 impl Tr {
@@ -97,6 +104,9 @@ impl Tr {
             Tr::Unknown => json!({"type": "reverse", "options": null}),
             Tr::ReplaceNoOptions => json!({"type": "replace", "options": null}),
             Tr::SliceNoTo => json!({"type": "slice", "options": {"from": "1"}}),
+            Tr::SliceBlankTo3 => json!({"type": "slice", "options": {"from": "", "to": "3"}}),
+            Tr::Slice1ToBlank => json!({"type": "slice", "options": {"from": "1", "to": ""}}),
+            Tr::SliceMinus1To2 => json!({"type": "slice", "options": {"from": "-1", "to": "2"}}),
         }
     }
     /// reference semantics (the three case conversions trust `heck`)
@@ -117,6 +127,10 @@ impl Tr {
                 }
             }
             Tr::ReplaceAB => v.replace('a', "b"),
+            // ASCII values only in this alphabet
+            Tr::SliceBlankTo3 => v[..v.len().min(3)].to_string(),
+            Tr::Slice1ToBlank => if v.is_empty() { String::new() } else { v[1..].to_string() },
+            Tr::SliceMinus1To2 => v[..v.len().min(2)].to_string(),
             Tr::Unknown | Tr::ReplaceNoOptions | Tr::SliceNoTo => v.to_string(),
         }
     }
@@ -194,6 +208,8 @@ pub fn templates() -> Vec<Template> {
             query: None,
             markers: &[("abc", 'h'), ("ab", 'p'), ("a", 'p'), ("x", 'x')],
         },
+        // two constraints on ONE header name (spelled in another case), the pattern with the marker is the second one
+        Template { name: "header-two-constraints+path", path: "/p/@y", host: None, header: Some(("X-Foo", "v-@x")), query: None, markers: &[("x", 'x'), ("y", 'p')] },
         // the request spells its query in the rule's own written order, which is not the sorted one, and ends with '&'
         Template { name: "path-one+unsorted-static-query", path: "/p/@a", host: None, header: None, query: Some("q=1&lang=en&"), markers: &[("a", 'p')] },
     ]
@@ -280,6 +296,7 @@ pub fn build(case: &Case) -> (Rule, Request, RouterConfig, bool, Vec<(String, St
     header_val = header_val.map(|h| substitute(&h, &at('x')));
     let headers_src: Value = match t.header {
         None => Value::Null,
+        Some((n, v)) if t.name == "header-two-constraints+path" => json!([{"type": "is_not_equal_to", "name": n.to_lowercase(), "value": "never"}, {"type": "match_regex", "name": n, "value": v}]),
         Some((n, v)) => json!([{"type": "match_regex", "name": n, "value": v}]),
     };
     let mut rule = json!({
@@ -441,6 +458,26 @@ pub fn check_case(case: &Case) -> Vec<(String, String)> {
                 format!("body-filter-value:{feature}"),
                 format!("body {:?}, expected {:?}; {desc}", String::from_utf8_lossy(&got_body), want_body),
             ));
+        }
+    }
+    // the same router (its routes are shared by every clone of it) serves another request first: same path and host, the header
+    // marker instantiated with the slot's OTHER accepted value; the request under test must get the same answer afterwards
+    if t.header.is_some() && !case.with_variables {
+        if let Some(hs) = case.slots.iter().position(|s| t.markers.iter().any(|(n, l)| *n == s.name && *l == 'x')) {
+            let mut other = case.clone();
+            other.slots[hs].value = 1 - case.slots[hs].value.min(1);
+            let (_, req2, _, ok2, _) = build(&other);
+            if ok2 {
+                let m2: Vec<_> = router.match_request(&req2).into_iter().filter(|r| r.id() == "m").collect();
+                let _ = Action::from_routes_rule(m2, &req2, None);
+                let again: Vec<_> = router.clone().match_request(&req).into_iter().filter(|r| r.id() == "m").collect();
+                let mut a2 = Action::from_routes_rule(again, &req, None);
+                let h2 = a2.filter_headers(vec![], 0, false, None);
+                let loc2 = h2.iter().find(|h| h.name == "Location").map(|h| h.value.clone()).unwrap_or_default();
+                if loc2 != want_location {
+                    out.push((format!("after-another-request:location:{feature}"), format!("after the router served the same URL with another header value: Location {:?}, expected {:?}; {desc}", loc2, want_location)));
+                }
+            }
         }
     }
     out
